@@ -6,6 +6,9 @@ package cert
 
 import (
 	"context"
+	"crypto/ecdsa"
+	"crypto/ed25519"
+	"crypto/sha256"
 	"fmt"
 	"io"
 	"testing"
@@ -196,6 +199,7 @@ func TestVerifC20(t *testing.T) {
 		}
 	}
 	c20AnyQC(t, v)
+	c20JunkPositions(t, v)
 	v.Close("QC and TC signed by exactly k distinct members verified by a real Authority, n = 1..13, k = 1..n; non-trivial = k at or just below the quorum")
 }
 
@@ -208,6 +212,13 @@ func TestVerifC20(t *testing.T) {
 // k = 1..q-1 must be rejected, k = q (the high QC itself) accepted.
 func c20AnyQC(t *testing.T, v *verifOut) {
 	s := v.Stream("anyqc", "thr_mismatches", 2000)
+	belowQuorum := map[string]int{}
+	defer func() {
+		// non-vacuity: for BLS12 a k-bit bitfield with the same point always Equals the high QC
+		v.CountN("anyqc:below-quorum-twins-evaluated:bls12", belowQuorum[crypto.NameBLS12])
+		v.Oracle(belowQuorum[crypto.NameBLS12] >= 7, "threshold:anyqc:vacuous", fmt.Sprintf("only %d BLS12 block-QC twins below the quorum were evaluated", belowQuorum[crypto.NameBLS12]),
+			map[string]any{"evaluated": belowQuorum})
+	}()
 	for _, scheme := range []string{crypto.NameECDSA, crypto.NameEDDSA, crypto.NameBLS12} {
 		for n := 4; n <= 10; n++ {
 			q := hotstuff.QuorumSize(n)
@@ -327,8 +338,13 @@ func c20AnyQC(t *testing.T, v *verifOut) {
 				claimed := sig.Participants().Len()
 				meta := map[string]any{"scheme": scheme, "n": n, "quorum": q, "claimed_signers": claimed, "equals_high_qc": bqc.Equals(highQC), "call": "VerifyAnyQC"}
 				if !bqc.Equals(highQC) || claimed != k {
-					v.Note(fmt.Sprintf("anyqc: twin construction for %s n=%d k=%d is not Equals to the high QC / claims %d signers; skipped", scheme, n, k, claimed))
+					// since /repo 89350ba the bytes of a multi-signature frame every entry, so for the list
+					// schemes no QC with fewer entries Equals the high QC any more: counted, not evaluated
+					v.Count("anyqc:twin-not-equal-skipped:" + scheme)
 					continue
+				}
+				if k < q {
+					belowQuorum[scheme]++
 				}
 				proposal := &hotstuff.ProposeMsg{ID: 1, Block: hotstuff.NewBlock(block.Hash(), bqc, &clientpb.Batch{}, aggView+1, 1), AggregateQC: &agg}
 				accepted := false
@@ -351,6 +367,247 @@ func c20AnyQC(t *testing.T, v *verifOut) {
 					v.Oracle(true, "", "", nil)
 				}
 				v.Case(s, fmt.Sprintf("(%s,%s,%s)", gZ(int64(n)), gZ(int64(k)), gBool(accepted)), meta)
+			}
+		}
+	}
+}
+
+// c20JunkPositions (stream "junk_positions": the name becomes a Coq file name, so no hyphen): ECDSA / EdDSA certificates with EXACTLY q entries naming q
+// distinct configured replicas, of which g are genuine and q-g are junk (random bytes; a valid signature
+// of another message; a valid signature by another replica relabelled), for cluster sizes whose quorums
+// straddle 8, 16 and 32 entries and every residue mod 8.  The junk block is placed first, last,
+// interleaved, and — for g = q-1 — at every single position.  VerifyQuorumCert, VerifyTimeoutCert and
+// VerifyAggregateQC are called on an Authority without cache and one with a cache of 100 entries.
+// Oracle: accepted => at least q entries verify individually, which is computed here with crypto/ecdsa
+// and crypto/ed25519 and the signers' public keys (not with the code under test); g = q is accepted.
+// BLS12 has no per-signer entries (a junk contribution changes the single point): counted as skipped.
+func c20JunkPositions(t *testing.T, v *verifOut) {
+	s := v.Stream("junk_positions", "thr_mismatches", 2000)
+	v.Count("junk-positions:bls12-has-no-entries-skipped")
+	sizes := []int{4, 7, 9, 10, 13, 16, 17, 22, 25, 31, 33}
+	if v.Thorough() {
+		sizes = nil
+		for n := 4; n <= 40; n++ {
+			sizes = append(sizes, n)
+		}
+	}
+	for _, scheme := range []string{crypto.NameECDSA, crypto.NameEDDSA} {
+		for _, n := range sizes {
+			q := hotstuff.QuorumSize(n)
+			keys := make([]hotstuff.PrivateKey, n+1)
+			bases := make([]crypto.Base, n+1)
+			for i := 1; i <= n; i++ {
+				var err error
+				if scheme == crypto.NameECDSA {
+					keys[i], err = keygen.GenerateECDSAPrivateKey()
+				} else {
+					_, keys[i], err = keygen.GenerateED25519Key()
+				}
+				if err != nil {
+					t.Fatal(err)
+				}
+				if bases[i], err = crypto.New(core.NewRuntimeConfig(hotstuff.ID(i), keys[i]), scheme); err != nil {
+					t.Fatal(err)
+				}
+			}
+			gen := hotstuff.GetGenesis()
+			genQC := hotstuff.NewQuorumCert(nil, 0, gen.Hash())
+			block := hotstuff.NewBlock(gen.Hash(), genQC, &clientpb.Batch{}, 1, 1)
+			other := hotstuff.NewBlock(gen.Hash(), genQC, &clientpb.Batch{}, 2, 2)
+			var verifiers []*Authority
+			for _, cacheSize := range []uint{0, 100} {
+				var opts []core.RuntimeOption
+				if cacheSize > 0 {
+					opts = append(opts, core.WithCache(cacheSize))
+				}
+				cfg := core.NewRuntimeConfig(hotstuff.ID(n), keys[n], opts...)
+				for j := 1; j <= n; j++ {
+					cfg.AddReplica(&hotstuff.ReplicaInfo{ID: hotstuff.ID(j), PubKey: keys[j].Public()})
+				}
+				base, err := crypto.New(cfg, scheme)
+				if err != nil {
+					t.Fatal(err)
+				}
+				logger := logging.NewWithDest(io.Discard, "c20")
+				bc := blockchain.New(eventloop.New(logger, 10), logger, c20NullSender{})
+				bc.Store(block)
+				verifiers = append(verifiers, NewAuthority(cfg, bc, base))
+			}
+			const tcView, aggView = 7, 5
+			timeoutBytes := func(id int, view hotstuff.View) []byte {
+				return hotstuff.TimeoutMsg{ID: hotstuff.ID(id), View: view, SyncInfo: hotstuff.NewSyncInfoWith(genQC)}.ToBytes()
+			}
+			// raw single signatures, made once
+			memo := map[string][]byte{}
+			raw := func(i int, msg []byte) []byte {
+				key := fmt.Sprintf("%d|%x", i, msg)
+				if b, ok := memo[key]; ok {
+					return b
+				}
+				sg, err := bases[i].Sign(msg)
+				if err != nil {
+					t.Fatal(err)
+				}
+				var b []byte
+				switch m := sg.(type) {
+				case crypto.Multi[*crypto.ECDSASignature]:
+					b = m[0].ToBytes()
+				case crypto.Multi[*crypto.EDDSASignature]:
+					b = m[0].ToBytes()
+				default:
+					t.Fatalf("unexpected signature type %T", sg)
+				}
+				memo[key] = b
+				return b
+			}
+			// independent check of one entry with the standard library and the labelled replica's public key
+			verifies := func(label int, msg, sig []byte) bool {
+				switch pk := keys[label].Public().(type) {
+				case *ecdsa.PublicKey:
+					h := sha256.Sum256(msg)
+					return ecdsa.VerifyASN1(pk, h[:], sig)
+				case ed25519.PublicKey:
+					return ed25519.Verify(pk, msg, sig)
+				}
+				return false
+			}
+			mkSig := func(entries [][]byte) hotstuff.QuorumSignature {
+				if scheme == crypto.NameECDSA {
+					m := make([]*crypto.ECDSASignature, len(entries))
+					for j, b := range entries {
+						m[j] = crypto.RestoreECDSASignature(b, hotstuff.ID(j+1))
+					}
+					return crypto.NewMulti(m...)
+				}
+				m := make([]*crypto.EDDSASignature, len(entries))
+				for j, b := range entries {
+					m[j] = crypto.RestoreEDDSASignature(b, hotstuff.ID(j+1))
+				}
+				return crypto.NewMulti(m...)
+			}
+			// entry j (label j+1) of a certificate over msgOf(label): genuine or one of three kinds of junk
+			entry := func(label int, junk string, msgOf, otherMsgOf func(int) []byte) []byte {
+				switch junk {
+				case "":
+					return raw(label, msgOf(label))
+				case "random-bytes":
+					b := make([]byte, 64)
+					for x := range b {
+						b[x] = byte(v.rng.Intn(256))
+					}
+					return b
+				case "other-message":
+					return raw(label, otherMsgOf(label))
+				default: // "other-replica": a valid signature over the right message by another replica
+					return raw(label%n+1, msgOf(label))
+				}
+			}
+			type layout struct {
+				name string
+				junk []bool // per position
+			}
+			var layouts []layout
+			gs := map[int]bool{}
+			for _, g := range []int{q, q - 1, q - 2, 8, q / 2, 1} {
+				if g < 1 || g > q || gs[g] {
+					continue
+				}
+				gs[g] = true
+				k := q - g
+				if k == 0 {
+					layouts = append(layouts, layout{"all-genuine", make([]bool, q)})
+					continue
+				}
+				first, last, inter := make([]bool, q), make([]bool, q), make([]bool, q)
+				for x := 0; x < k; x++ {
+					first[x], last[q-1-x] = true, true
+					inter[x*q/k] = true
+				}
+				layouts = append(layouts, layout{"junk-first", first}, layout{"junk-last", last}, layout{"junk-interleaved", inter})
+				if g == q-1 {
+					for pos := 0; pos < q; pos++ {
+						one := make([]bool, q)
+						one[pos] = true
+						layouts = append(layouts, layout{fmt.Sprintf("junk-at-position-%d", pos), one})
+					}
+				}
+			}
+			kinds := []string{"random-bytes", "other-message", "other-replica"}
+			for li, lay := range layouts {
+				useKinds := kinds
+				if len(lay.name) > 16 && lay.name[:16] == "junk-at-position" {
+					useKinds = kinds[li%3 : li%3+1] // one kind per single position, cycling
+				} else if lay.name == "all-genuine" {
+					useKinds = kinds[:1]
+				}
+				for _, kind := range useKinds {
+					type certKind struct {
+						name     string
+						msgOf    func(int) []byte
+						otherMsg func(int) []byte
+						verify   func(a *Authority, sig hotstuff.QuorumSignature) bool
+					}
+					certs := []certKind{
+						{"qc", func(int) []byte { return block.ToBytes() }, func(int) []byte { return other.ToBytes() },
+							func(a *Authority, sig hotstuff.QuorumSignature) bool {
+								return a.VerifyQuorumCert(hotstuff.NewQuorumCert(sig, block.View(), block.Hash())) == nil
+							}},
+						{"tc", func(int) []byte { return hotstuff.View(tcView).ToBytes() }, func(int) []byte { return hotstuff.View(tcView + 1).ToBytes() },
+							func(a *Authority, sig hotstuff.QuorumSignature) bool {
+								return a.VerifyTimeoutCert(hotstuff.NewTimeoutCert(sig, tcView)) == nil
+							}},
+						{"aggqc", func(id int) []byte { return timeoutBytes(id, aggView) }, func(id int) []byte { return timeoutBytes(id, aggView+1) },
+							func(a *Authority, sig hotstuff.QuorumSignature) bool {
+								qcs := make(map[hotstuff.ID]hotstuff.QuorumCert, q)
+								for id := 1; id <= q; id++ {
+									qcs[hotstuff.ID(id)] = genQC
+								}
+								_, err := a.VerifyAggregateQC(hotstuff.NewAggregateQC(qcs, sig, aggView))
+								return err == nil
+							}},
+					}
+					for _, ck := range certs {
+						entries := make([][]byte, q)
+						valid := 0
+						for j := 0; j < q; j++ {
+							jk := ""
+							if lay.junk[j] {
+								jk = kind
+							}
+							entries[j] = entry(j+1, jk, ck.msgOf, ck.otherMsg)
+							if verifies(j+1, ck.msgOf(j+1), entries[j]) {
+								valid++
+							}
+						}
+						sig := mkSig(entries)
+						for vi, a := range verifiers {
+							accepted := false
+							meta := map[string]any{"scheme": scheme, "n": n, "quorum": q, "entries": q, "entries_that_verify": valid,
+								"layout": lay.name, "junk_kind": kind, "certificate": ck.name, "cache_size": []int{0, 100}[vi]}
+							func() {
+								defer func() {
+									if r := recover(); r != nil {
+										meta["panic"] = fmt.Sprint(r)
+									}
+								}()
+								accepted = ck.verify(a, sig)
+							}()
+							meta["accepted"] = accepted
+							v.Seen(fmt.Sprintf("junk/%s/%d/%s/%s/%s/%d", scheme, n, lay.name, kind, ck.name, vi), valid == q-1 || valid == q, meta)
+							v.Count("junk-positions:" + ck.name)
+							switch {
+							case accepted && valid < q:
+								v.Oracle(false, "threshold:"+ck.name+":junk-entries-counted", fmt.Sprintf("%s n=%d: a %s with %d entries of distinct replicas of which only %d verify (%s, %s) was accepted, quorum is %d",
+									scheme, n, ck.name, q, valid, lay.name, kind, q), meta)
+							case !accepted && valid >= q:
+								v.Oracle(false, "threshold:"+ck.name+":rejected-at-quorum", fmt.Sprintf("%s n=%d: a %s whose %d entries all verify was rejected", scheme, n, ck.name, q), meta)
+							default:
+								v.Oracle(true, "", "", nil)
+							}
+							v.Case(s, fmt.Sprintf("(%s,%s,%s)", gZ(int64(n)), gZ(int64(valid)), gBool(accepted)), meta)
+						}
+					}
+				}
 			}
 		}
 	}
